@@ -248,7 +248,7 @@ fn main() {
         let mut pts = simple_polygon(&mut r, n, 0.0, 0.0, w, h, &mut pool);
         let mut segs: Vec<(usize, usize)> = (0..n).map(|k| (k, (k + 1) % n)).collect();
         // sometimes a second loop: a small hole (clockwise) well inside, or a separate polygon next to the first
-        let second = r.below(5);
+        let second = r.below(4);
         if second == 0 {
             let m = 3 + r.below(3) as usize;
             let q = simple_polygon(&mut r, m, w + 3.0, 0.5, 2.0, 2.0, &mut pool);
@@ -268,9 +268,15 @@ fn main() {
             segs[j] = (segs[j].1, segs[j].0);
         }
         // points of interest: all corners, none, or a random subset
-        let poi: Vec<usize> = match r.below(3) {
+        // (or, with two loops, corners of one loop only: the other loop is then a curve without node)
+        let poi: Vec<usize> = match r.below(4) {
             0 => (0..pts.len()).collect(),
             1 => Vec::new(),
+            2 if second == 0 => {
+                let first = r.chance(1, 2);
+                let all = r.chance(1, 2);
+                (0..pts.len()).filter(|&k| (k < n) == first).filter(|_| all || r.chance(1, 2)).collect()
+            }
             _ => (0..pts.len()).filter(|_| r.chance(1, 2)).collect(),
         };
         let clipc = if kind == 1 { 1 + r.below(2) as u32 } else { r.below(3) as u32 };
